@@ -167,11 +167,15 @@ def recordTx (P : Params) (h : Nat) (hash : Hash) (rates avgs : Option TMap) (id
 def recordBatch (P : Params) (h : Nat) (hash : Hash) (rates avgs : Option TMap) (txs : List Tx) : LM Unit :=
   M.forEachIdx txs (recordTx P h hash rates avgs)
 
+/-- history variable only: this execution of the batch is noted -/
+abbrev logExec (hash : Hash) : LM Unit :=
+  M.guarded (fun _ => none) fun db => { db with execLog := db.execLog ++ [hash] }
+
 /-- `applyTransactionBatch`: returns the verdict; on `.apply` the batch has been recorded. -/
 def applyBatch (P : Params) (h : Nat) (e : TxEntry) (rates avgs : Option TMap) : LM Verdict := do
   let db ← M.get
   match verdict P db h rates avgs e.txs with
-  | .apply => do recordBatch P h e.hash rates avgs e.txs; pure .apply
+  | .apply => do logExec e.hash; recordBatch P h e.hash rates avgs e.txs; pure .apply
   | .failBlock f => M.throw f
   | v => pure v
 
